@@ -19,6 +19,8 @@ HdrTimes == Hdr.times
 HdrQStr == Rng(Hdr.qstr)
 HdrBadJs == Rng(Hdr.badjs)
 HdrMax == Hdr.max
+HdrActs == Hdr.acts
+HdrCondCodes == Hdr.codes
 
 VARIABLES mem, ro, impl, l
 vars == <<mem, ro, impl, l>>
@@ -30,13 +32,36 @@ OpOf(e) == [op |-> e.op, loc |-> e.loc, id |-> e.id, rid |-> e.rid, val |-> Norm
 NormFound(f) == {[id |-> f[i].id, bss |-> NormBs(f[i].bss), body |-> Norm(f[i].body)] : i \in DOMAIN f}
 NoBody(F) == {[id |-> x.id, bss |-> x.bss] : x \in F}
 
+RECURSIVE Flat(_, _, _)
+\* values of the completed executions of a logged tree, as a sequence
+Flat(tr, i, j) ==
+  IF i > Len(tr) THEN <<>>
+  ELSE IF j > Len(tr[i].execs) THEN Flat(tr, i + 1, 1)
+  ELSE (IF tr[i].execs[j].ok THEN <<Norm(tr[i].execs[j].val)>> ELSE <<>>) \o Flat(tr, i, j + 1)
+FlatVals(tr) == Flat(tr, 1, 1)
+
+\* the logged work tree: per (rule, when-binding) node the condition outcome and the executions
+LoggedNode(n) == [id |-> n.id, wb |-> NormB(n.wb), c |-> n.c,
+                  execs |-> SeqBag([i \in DOMAIN n.execs |-> [b |-> NormB(n.execs[i].b), code |-> n.execs[i].code]])]
+LoggedTree(tr) == {LoggedNode(tr[i]) : i \in DOMAIN tr}
+\* every logged execution reports what its script does; `values` holds the results of the completed ones
+ExecsOk(tr) == \A i \in DOMAIN tr : \A j \in DOMAIN tr[i].execs :
+                  LET x == tr[i].execs[j]
+                  IN IF ExecFails(x.code) THEN ~x.ok
+                     ELSE x.ok /\ Norm(x.val) = ExecValue(x.code, NormB(x.b))
+ValuesOk(lr) == SeqBag([i \in DOMAIN lr.vals |-> Norm(lr.vals[i])])
+                = SeqBag(SelectSeq(FlatVals(lr.tree), LAMBDA v : TRUE))
+
 RespMatch(op, r, lr) ==
   /\ r.c = lr.c
   /\ r.c = "ok" =>
        CASE op.op \in {"AddFact", "AddRule"} -> r.id = lr.id
          [] op.op \in {"GetFact", "GetRule"} -> r.val = Norm(lr.val)
          [] op.op = "SearchFacts" -> r.found = NormFound(lr.found)
-         [] op.op = "ProcessEvent" -> NoBody(r.found) = NoBody(NormFound(lr.found))
+         [] op.op = "ProcessEvent" -> /\ NoBody(r.found) = NoBody(NormFound(lr.found))
+                                      /\ r.tree = LoggedTree(lr.tree)
+                                      /\ ExecsOk(lr.tree)
+                                      /\ ValuesOk(lr)
          [] op.op \in {"ListRules", "SearchRules", "GetParents"} -> r.ids = Rng(lr.ids)
          [] op.op = "StateSize" -> r.n = lr.n
          [] OTHER -> TRUE
